@@ -1,273 +1,206 @@
 """
 C19 -- Definitions outside the dependency closure cannot influence the result.
 
-R1  who may evaluate a definition: the only call sites of ReadableDSDLFile.read / readers of `.text` are
-    (a) _read_definitions on a *target* (loop variable over the target list, possibly its file_pool twin),
-    (b) resolve_versioned_data_type on the single definition selected by the name+version filter,
-    (c) DSDLDefinition.read on `self` (the text is parsed there).  Anything else - in particular iteration over a
-    lookup list - is a violation.
-R2  lookup objects are touched through path-derived metadata only; DSDLDefinition.__init__ reads no content.
-R3  the cross-definition checks and the returned lists are built from the results of reads only.
-R4  the user's print handler is invoked only from the print directive handler (inside a read).
+The reading pipeline is *abstractly evaluated* from its source over a small world of abstract definition files
+(reader_common).  An abstract definition records every use of its `read` and `text` and every request for anything that is
+not path-derived metadata; the rules compare those observations with the dependency closure.
+
+R1  who may evaluate a definition: the namespace reader reads exactly the closure of the targets; the resolver reads only the
+    single definition selected by name and version; a definition's text is loaded only while that definition itself is read.
+R2  lookup definitions are touched through path-derived metadata only; constructing a definition object reads no content;
+    listing a namespace builds definition objects from paths without reading them.
+R3  the results and what the cross-definition checks receive consist of types produced by reads, nothing else.
+R4  the user's print handler receives exactly the output of the definitions that are read (none for unreferenced ones).
 """
 from __future__ import annotations
 
 import ast
 from typing import Any, Dict, List, Optional, Set, Tuple
 
-from ..callgraph import CallGraph
-from ..core import AnalysisError, ClassInfo, Ctx, FuncInfo, calls_in, dotted, norm, walk_no_nested
-
-METADATA = {
-    "full_name", "version", "root_namespace", "name_components", "short_name", "full_namespace", "file_path",
-    "fixed_port_id", "has_fixed_port_id", "root_namespace_path", "composite_type",
-}
-LOOKUP_NAMES = {"lookup_definitions", "lookup_dsdl_definitions", "self._lookup_definitions"}
+from ..absint import APath, Raised, Recorder, call_fn
+from ..core import AnalysisError, Ctx
+from ..fold import Sym, Unfoldable
+from . import reader_common as R
 
 
-def _assignments(fn: FuncInfo, name: str) -> List[ast.AST]:
-    out = []
-    for st in walk_no_nested(fn.node):
-        if isinstance(st, ast.Assign):
-            for t in st.targets:
-                if norm(t) == name:
-                    out.append(st.value)
-        elif isinstance(st, ast.AnnAssign) and norm(st.target) == name and st.value is not None:
-            out.append(st.value)
+def _world(prints: bool = False) -> Tuple[R.World, Dict[str, R.ADef]]:
+    w = R.World()
+    C = R.ADef(w, "ns.C", 1, 0)
+    B = R.ADef(w, "ns.B", 1, 0, deps=[C])
+    A = R.ADef(w, "ns.A", 1, 1, deps=[B])
+    d = {
+        "A": A, "B": B, "C": C,
+        "A10": R.ADef(w, "ns.A", 1, 0),  # an older minor version of a target, not referenced
+        "A20": R.ADef(w, "ns.A", 2, 0),
+        "B11": R.ADef(w, "ns.B", 1, 1),  # a newer minor version of a dependency, not referenced
+        "D": R.ADef(w, "ns.D", 1, 0, fail="DSDLSyntaxError"),  # unreferenced and broken
+        "X": R.ADef(w, "other.X", 1, 0, deps=[]),
+        "Atwin": R.ADef(w, "ns.A", 1, 1, root="/third-party"),  # same name and version under another root
+    }
+    for x in d.values():
+        x.__dict__["prints"] = prints
+    return w, d
+
+
+def _closure(ds: List[R.ADef]) -> List[R.ADef]:
+    out: List[R.ADef] = []
+    work = list(ds)
+    while work:
+        x = work.pop(0)
+        if x not in out:
+            out.append(x)
+            work.extend(x.deps)
     return out
 
 
-def _loop_sources(fn: FuncInfo, var: str) -> List[str]:
-    return [norm(st.iter) for st in walk_no_nested(fn.node) if isinstance(st, ast.For) and norm(st.target) == var]
-
-
-def rule_r1(ctx: Ctx, g: CallGraph) -> None:
-    repo = ctx.repo
-    ctx.rule("C19.R1", "ReadableDSDLFile.read is called only on targets, on the filter-selected dependency, and the text is read only by DSDLDefinition.read on self", min_instances=3)
-    read_methods = {f.qualname for f in g.funcs.values() if f.name == "read" and f.cls is not None and repo.is_subclass(f.cls, ctx.cls("_dsdl.DSDLFile"))}
-    if len(read_methods) < 2:
-        raise AnalysisError("read methods not found: %s" % read_methods)
-    text_props = {f.qualname for f in g.funcs.values() if f.name == "text" and f.is_property and f.cls is not None and repo.is_subclass(f.cls, ctx.cls("_dsdl.DSDLFile"))}
-    seen = {"a": 0, "b": 0, "c": 0}
-    for q, sites in sorted(g.sites.items()):
-        base = q[len("<lambda> "):].rsplit(":", 1)[0] if q.startswith("<lambda> ") else q
-        fn = g.funcs.get(base)
-        if fn is None:
+def rule_r1_r3_r4(ctx: Ctx) -> None:
+    ctx.rule("C19.R1", "the namespace reader reads exactly the dependency closure of the targets; the resolver reads only the definition selected by name and version; text is loaded only while the definition itself is read", min_instances=3)
+    ctx.rule("C19.R3", "direct / transitive results and the arguments of the cross-definition checks consist of types produced by reads, nothing else", min_instances=2)
+    ctx.rule("C19.R4", "the user's print handler receives exactly the output of the definitions that are read", min_instances=1)
+    nsr = ctx.func("_namespace_reader._read_definitions")
+    bad1, bad3, bad4 = [], [], []
+    for tnames in (["A"], ["A", "X"], ["X"], ["B", "A"]):
+        w, d = _world(prints=True)
+        targets = [d[n] for n in tnames]
+        lookups = list(d.values())
+        user = Recorder("user-print-handler")
+        out = R.run_reader(ctx, targets, lookups, handler=user)
+        ctx.count()
+        if out["raised"]:
+            bad1.append({"targets": tnames, "found": "raised %s (a definition outside the closure is broken: that must not matter)" % out["raised"]})
             continue
-        for s in sites:
-            hits_read = [c for c in s.callees if c in read_methods]
-            hits_text = [c for c in s.callees if c in text_props]
-            if hits_read and s.kind in ("call", "ref") and isinstance(s.node, (ast.Call, ast.Attribute)):
-                call = s.node
-                recv = call.func.value if isinstance(call, ast.Call) and isinstance(call.func, ast.Attribute) else (call.value if isinstance(call, ast.Attribute) else None)
-                rs = norm(recv) if recv is not None else "?"
-                short = fn.short
-                verdict = False
-                why = ""
-                if short.endswith("_namespace_reader._read_definitions") and isinstance(recv, ast.Name):
-                    srcs = _loop_sources(fn, rs)
-                    reassigned = [norm(a) for a in _assignments(fn, rs)]
-                    twin_ok = all(a == "file_pool.setdefault(%s.file_path, %s)" % (rs, rs) for a in reassigned)
-                    verdict = srcs == [fn.params[0]] and twin_ok and q == base
-                    why = "receiver iterates %s, reassigned by %s" % (srcs, reassigned)
-                    seen["a"] += 1
-                elif short.endswith("DataTypeBuilder.resolve_versioned_data_type") and isinstance(recv, ast.Name):
-                    defs = [norm(a) for a in _assignments(fn, rs)]
-                    ok_sel = defs == ["found[0]"]
-                    fdefs = _assignments(fn, "found")
-                    ok_filter = len(fdefs) == 1 and isinstance(fdefs[0], ast.Call) and norm(fdefs[0]).startswith("list(filter(lambda") and norm(fdefs[0]).endswith(", self._lookup_definitions))")
-                    verdict = ok_sel and ok_filter and q == base
-                    why = "receiver = %s, found = %s" % (defs, [norm(x)[:90] for x in fdefs])
-                    seen["b"] += 1
-                elif s.kind == "ref" and not isinstance(call, ast.Call):
-                    verdict = False
-                    why = "read method taken as a value"
-                else:
-                    why = "unexpected reader"
-                ctx.check(verdict, short, "%s.read(...)" % rs, "a definition may be evaluated only if it is a target or the dependency selected by name and version", fn.where(s.node), why)
-            if hits_text and s.kind == "prop":
-                recv = s.node.value if isinstance(s.node, ast.Attribute) else None
-                rs = norm(recv) if recv is not None else "?"
-                verdict = fn.short.endswith("DSDLDefinition.read") and rs == "self"
-                seen["c"] += 1
-                ctx.check(verdict, fn.short, "%s.text" % rs, "definition text may be loaded only while that definition itself is being read", fn.where(s.node))
-    if not (seen["a"] and seen["b"] and seen["c"]):
-        raise AnalysisError("positive control failed: expected read sites not all found %s" % seen)
-    # raw file access in the modules that handle definitions
-    for mname in ("_namespace", "_namespace_reader", "_dsdl_definition", "_data_type_builder", "_dsdl"):
-        m = repo.module(mname)
-        for fn in repo.all_functions().values():
-            if fn.module is not m:
-                continue
-            for c in calls_in(fn.node, include_nested=False):
-                n = dotted(c.func) or (c.func.attr if isinstance(c.func, ast.Attribute) else "")
-                last = n.split(".")[-1]
-                if last in ("open", "read_text", "read_bytes"):
-                    good = fn.short.endswith("DSDLDefinition.text") and norm(c) in ("open(self._file_path)", "open(self.file_path)")
-                    ctx.check(good, fn.short, norm(c), "file contents may be opened only by the lazy text accessor", fn.where(c))
-            for n2 in walk_no_nested(fn.node):
-                if isinstance(n2, ast.Attribute) and n2.attr == "_text" and not (fn.cls is not None and fn.cls.name == "DSDLDefinition" and fn.name in ("__init__", "text")):
-                    ctx.fail(fn.short, norm(n2), "the cached text is private to the lazy accessor", where=fn.where(n2))
-    # the accessor is lazy: loads only when unset
-    acc = ctx.func("_dsdl_definition.DSDLDefinition.text")
-    lazy = any(isinstance(st, ast.If) and norm(st.test) == "self._text is None" and any(isinstance(x, ast.Call) and dotted(x.func) == "open" for x in ast.walk(st)) for st in acc.node.body)
-    ctx.check(lazy, acc.short, "lazy load", "text is loaded on first use only", acc.where())
-
-
-def rule_r2(ctx: Ctx, g: CallGraph) -> None:
-    repo = ctx.repo
-    ctx.rule("C19.R2", "elements of lookup lists are accessed through path-derived metadata only; the definition constructor reads no content", min_instances=4)
-    n = 0
-    for fn in repo.all_functions().values():
-        if fn.module.name not in ("pydsdl._namespace", "pydsdl._namespace_reader", "pydsdl._dsdl_definition", "pydsdl._data_type_builder"):
-            continue
-        for node in ast.walk(fn.node) if fn.parent is None else []:
-            elem_vars: List[Tuple[str, ast.AST]] = []
-            if isinstance(node, ast.For) and norm(node.iter) in LOOKUP_NAMES:
-                elem_vars.append((norm(node.target), node))
-            if isinstance(node, (ast.ListComp, ast.SetComp, ast.GeneratorExp)):
-                for gen in node.generators:
-                    if norm(gen.iter) in LOOKUP_NAMES:
-                        elem_vars.append((norm(gen.target), node))
-            if isinstance(node, ast.Call) and dotted(node.func) in ("filter", "map") and len(node.args) == 2 and norm(node.args[1]) in LOOKUP_NAMES and isinstance(node.args[0], ast.Lambda):
-                lam = node.args[0]
-                if lam.args.args:
-                    elem_vars.append((lam.args.args[0].arg, lam.body))
-            for var, scope in elem_vars:
-                used: Set[str] = set()
-                escapes: List[str] = []
-                parents = {}
-                for p in ast.walk(scope):
-                    for ch in ast.iter_child_nodes(p):
-                        parents[ch] = p
-                for x in ast.walk(scope):
-                    if isinstance(x, ast.Name) and x.id == var and isinstance(x.ctx, ast.Load):
-                        par = parents.get(x)
-                        if isinstance(par, ast.Attribute):
-                            used.add(par.attr)
-                        elif isinstance(par, ast.Compare):
-                            used.add("__eq__")
-                        elif isinstance(par, ast.Call) and x in par.args and dotted(par.func) in ("str", "repr", "isinstance", "hash"):
-                            used.add("__str__")
-                        elif isinstance(par, (ast.ListComp, ast.SetComp, ast.GeneratorExp)) and par.elt is x:
-                            used.add("<collect>")
-                        else:
-                            escapes.append(norm(par) if par is not None else var)
-                bad = sorted(a for a in used if a not in METADATA and a not in ("__eq__", "__str__", "<collect>"))
-                n += 1
-                ctx.check(not bad and not escapes, fn.short, "element %s of %s: %s" % (var, "lookup list", sorted(used)), "a lookup definition may only be inspected through its path-derived metadata", fn.where(scope), {"non_metadata": bad, "escapes": escapes[:3]})
-    if n < 3:
-        raise AnalysisError("C19.R2: only %d lookup-element scopes found (expected the filters in read / resolve and the logging scopes)" % n)
-    init = ctx.func("_dsdl_definition.DSDLDefinition.__init__")
-    offenders = []
-    for c in calls_in(init.node):
-        name = dotted(c.func) or (c.func.attr if isinstance(c.func, ast.Attribute) else "")
-        if name.split(".")[-1] in ("open", "read_text", "read_bytes", "read", "parse"):
-            offenders.append(norm(c))
-    for x in ast.walk(init.node):
-        if isinstance(x, ast.Attribute) and x.attr == "text":
-            offenders.append(norm(x))
-    text_store = [norm(st.value) for st in walk_no_nested(init.node) if isinstance(st, (ast.Assign, ast.AnnAssign)) and norm(st.targets[0] if isinstance(st, ast.Assign) else st.target) == "self._text"]
-    cache_store = [norm(st.value) for st in walk_no_nested(init.node) if isinstance(st, (ast.Assign, ast.AnnAssign)) and norm(st.targets[0] if isinstance(st, ast.Assign) else st.target) == "self._cached_type"]
-    ctx.check(not offenders and text_store == ["None"] and cache_store == ["None"], init.short, "no content access in the constructor", "constructing a definition object from a path must not open or parse the file", init.where(), {"offenders": offenders, "text": text_store, "cache": cache_store})
-    # the lookup list is constructed from paths only
-    cons = ctx.func("_namespace._construct_dsdl_definitions_from_namespaces")
-    reads = [norm(c) for c in calls_in(cons.node) if (dotted(c.func) or getattr(c.func, "attr", "")).split(".")[-1] in ("read", "open", "read_text", "parse")]
-    ctx.check(not reads, cons.short, "paths only", "listing a namespace constructs definition objects from paths without reading them", cons.where(), reads)
-
-
-def rule_r3(ctx: Ctx) -> None:
-    ctx.rule("C19.R3", "direct / transitive results contain only types returned by reads; the cross-definition checks receive nothing else", min_instances=3)
-    fn = ctx.func("_namespace_reader._read_definitions")
-    read_var = None
-    for st in ast.walk(fn.node):
-        if isinstance(st, ast.Assign) and isinstance(st.value, ast.Call) and isinstance(st.value.func, ast.Attribute) and st.value.func.attr == "read" and isinstance(st.targets[0], ast.Name):
-            read_var = st.targets[0].id
-    if read_var is None:
-        raise AnalysisError("_read_definitions: result of read not found")
-    adds = []
-    for c in calls_in(fn.node):
-        if isinstance(c.func, ast.Attribute) and c.func.attr in ("add", "update", "append", "extend") and norm(c.func.value) in ("direct", "transitive"):
-            adds.append((norm(c.func.value), c.func.attr, norm(c.args[0]) if c.args else ""))
-    good = bool(adds) and all(a[1] == "add" and a[2] in (read_var, "target_definition.composite_type") for a in adds)
-    ctx.check(good, fn.short, "result sets <- %s" % sorted(set(a[2] for a in adds)), "only the composite returned by reading a target or dependency may enter direct/transitive", fn.where(), adds)
-    rd = ctx.func("_namespace_reader.read_definitions")
-    rets = [st for st in walk_no_nested(rd.node) if isinstance(st, ast.Return)]
-    inner = [c for c in calls_in(rd.node) if dotted(c.func) == "_read_definitions"]
-    good = False
-    if len(rets) == 1 and isinstance(rets[0].value, ast.Call) and len(inner) == 1:
-        kws = {k.arg: norm(k.value) for k in inner[0].keywords}
-        d, t = kws.get("direct"), kws.get("transitive")
-        args = rets[0].value.args
-        good = d is not None and t is not None and len(args) == 2 and all(isinstance(a, ast.Call) and dotted(a.func) in ("dsdl_file_sort", "file_sort", "sorted") for a in args) and [norm(a.args[0]) for a in args] == [d, t]  # type: ignore
-        # the sets start empty
-        for name in (d, t):
-            inits = [norm(st.value) for st in walk_no_nested(rd.node) if isinstance(st, (ast.Assign, ast.AnnAssign)) and norm(st.targets[0] if isinstance(st, ast.Assign) else st.target) == name]
-            good = good and inits == ["set()"]
-    ctx.check(good, rd.short, norm(rets[0].value) if rets else "?", "read_definitions returns exactly the two sets collected by the reader (initially empty, sorted)", rd.where())
+        cl = _closure(targets)
+        want_read = sorted(x.label for x in cl)
+        got_read = sorted(set(w.reads()))
+        touched = sorted({(e[1].label, e[0] if e[0] != "other" else e[2]) for e in w.log if e[0] in ("text", "other")})
+        if got_read != want_read or touched:
+            bad1.append({"targets": tnames, "read": got_read, "expected": want_read, "other accesses": touched})
+        res = out["result"]
+        produced = {id(x.composite_type): x.label for x in w.defs if x.composite_type is not None}
+        foreign = [repr(t)[:60] for t in list(res.direct) + list(res.transitive) if id(t) not in produced]
+        if foreign or sorted(produced[id(t)] for t in list(res.direct) + list(res.transitive)) != want_read:
+            bad3.append({"targets": tnames, "not produced by a read": foreign, "returned": sorted(produced.get(id(t), "?") for t in list(res.direct) + list(res.transitive))})
+        # prints: one per definition read (the model prints once per build), delivered with that definition's path
+        # (which path a dependency's output is attributed to is not part of this property)
+        got_p = sorted((a[1], a[2]) for _, a, _ in user.log)
+        want_p = sorted((7, "printed by " + x.label) for x in cl)
+        if got_p != want_p:
+            bad4.append({"targets": tnames, "delivered": got_p[:6], "expected": want_p[:6]})
+    ctx.check(not bad1, nsr.short, "reads == closure of the targets, over 4 target lists", "a definition may be evaluated only if it is a target or (transitively) referenced by one; nothing else is opened, parsed or evaluated - a broken unreferenced file changes nothing", nsr.where(), bad1[:3], rule="C19.R1")
+    ctx.check(not bad3, nsr.short, "results == types produced by the reads", "only the composite returned by reading a target or dependency may enter direct/transitive", nsr.where(), bad3[:3], rule="C19.R3")
+    ctx.check(not bad4, nsr.short, "print output == that of the definitions read", "the user's handler is reached only through the reads: once per output of a definition in the closure, never for an unreferenced definition", nsr.where(), bad4[:3], rule="C19.R4")
+    # the resolver: only the definition selected by name and version
+    rv = ctx.func("_data_type_builder.DataTypeBuilder.resolve_versioned_data_type")
+    w, d = _world()
+    bad = []
+    for ref, ver, want in (("ns.B", (1, 0), "B"), ("ns.B", (1, 1), "B11"), ("ns.C", (1, 0), "C"), ("ns.B", (3, 0), None), ("ns.Q", (1, 0), None)):
+        del w.log[:]
+        for x in w.defs:
+            x.__dict__["composite_type"] = None
+        lk = [d[k] for k in ("A", "B", "C", "A10", "A20", "B11", "D", "X")]
+        o = R.resolve(ctx, d["A"], lk, ref, ver[0], ver[1])
+        ctx.count()
+        reads = [e[1] for e in w.log if e[0] == "read"]
+        others = [(e[1].label, e[0] if e[0] != "other" else e[2]) for e in w.log if e[0] in ("text", "other")]
+        want_reads = [d[want]] if want else []
+        # the model of read() reads the dependency's own dependencies in turn: only the first read is the resolver's
+        first = reads[:1]
+        if [id(x) for x in first] != [id(x) for x in want_reads] or others or any(x not in _closure(want_reads) for x in reads):
+            bad.append({"reference": "%s.%d.%d" % (ref, ver[0], ver[1]), "read": [x.label for x in reads], "other accesses": others})
+    # an ambiguous reference (the same name and version under two roots): at most one candidate may ever be evaluated
+    del w.log[:]
+    for x in w.defs:
+        x.__dict__["composite_type"] = None
+    R.resolve(ctx, d["X"], [d["A"], d["Atwin"], d["B"], d["C"], d["D"]], "ns.A", 1, 1)
+    ctx.count()
+    cands = [e[1].label for e in w.log if e[0] == "read" and e[1] in (d["A"], d["Atwin"])]
+    if len(set(cands)) > 1 or any(e[0] in ("text", "other") for e in w.log):
+        bad.append({"reference": "ns.A.1.1 (two candidates)", "read": [e[1].label for e in w.log if e[0] == "read"]})
+    ctx.check(not bad, rv.short, "only the selected definition is read", "a definition may be evaluated only if it is a target or the dependency selected by name and version", rv.where(), bad[:3], rule="C19.R1")
+    # DSDLDefinition.read: its own text, once; nothing of the lookup definitions
+    rd = ctx.func("_dsdl_definition.DSDLDefinition.read")
+    w, d = _world()
+    own = R.own_definition(ctx, "ns.sub.T", 1, 2)
+    o = R.read_own(ctx, own, list(d.values()))
+    ctx.count()
+    touched = sorted({(e[1].label, e[0] if e[0] != "other" else e[2]) for e in w.log})
+    ctx.check(not o["raised"] and o["opens"] == 1 and not touched, rd.short, "opens its own file once (%d); lookup definitions untouched" % o["opens"], "definition text may be loaded only while that definition itself is being read; handing a definition the lookup list must not evaluate any of it", rd.where(), {"raised": o["raised"], "accesses to lookup definitions": touched}, rule="C19.R1")
+    # the cross-definition checks see read results only
     crf = ctx.func("_namespace._complete_read_function")
-    args = {}
-    for c in calls_in(crf.node):
-        n = dotted(c.func)
-        if n in ("_ensure_no_fixed_port_id_collisions", "_ensure_minor_version_compatibility"):
-            args[n] = norm(c.args[0]) if c.args else ""
-    lookups_leak = [a for a in args.values() if "lookup" in a]
-    ctx.check(len(args) == 2 and not lookups_leak and all(a.replace("definitions.direct", "").replace("definitions.transitive", "").strip(" +") == "" for a in args.values()), crf.short, str(args), "cross-definition checks are computed from the read results only - never from the lookup list", crf.where(), args)
-    # nothing derived from the lookup list reaches a function that compares definitions
-    for c in calls_in(crf.node):
-        n = dotted(c.func) or ""
-        if n.startswith("_ensure") and n not in args:
-            ctx.fail(crf.short, norm(c), "an additional cross-definition check", where=crf.where(c))
-        if n == "read_definitions":
-            continue
-        for a in list(c.args) + [k.value for k in c.keywords]:
-            if norm(a) == "lookup_dsdl_definitions" and n not in ("read_definitions", "len", "map", "_logger.debug", "_logger.info", "str"):
-                ctx.fail(crf.short, norm(c), "the lookup list is handed to something other than the lazy reader", where=crf.where(c))
+    w, d = _world()
+    log: List[Any] = []
+    lookups = list(d.values())
+    hook = R._hook(ctx, crf.module, log, record=["_ensure_no_fixed_port_id_collisions", "_ensure_minor_version_compatibility", "_construct_dsdl_definitions_from_namespaces", "_construct_lookup_directories_path_list"], results={
+        "_ensure_no_fixed_port_id_collisions": None, "_ensure_minor_version_compatibility": None,
+        "_construct_dsdl_definitions_from_namespaces": lambda *a, **k: list(lookups), "_construct_lookup_directories_path_list": lambda *a, **k: [],
+    })
+    args: Dict[str, Any] = {}
+    for p_ in crf.params:
+        args[p_] = [d["A"]] if "target" in p_ else ([] if ("list" in p_ or "director" in p_) else (None if "handler" in p_ else False))
+    raised = None
+    try:
+        call_fn(ctx, crf, [], args, hook=hook, keep=tuple(crf.module.functions))
+    except Raised as r:
+        raised = r.cls_name  # every definition of the closure is fine: only an unreferenced one can have failed
+    except Unfoldable as ex:
+        raise AnalysisError("%s: cannot evaluate over the abstract world: %s" % (crf.short, ex))
+    produced = {id(x.composite_type): x.label for x in w.defs if x.composite_type is not None}
+    leaks = []
+    for name, a, _k in log:
+        if name.startswith("_ensure"):
+            for t in (a[0] if a else []):
+                if id(t) not in produced:
+                    leaks.append("%s received %s" % (name, repr(t)[:50]))
+    got_read = sorted(set(w.reads()))
+    ctx.count()
+    ctx.check(not raised and not leaks and got_read == sorted(x.label for x in _closure([d["A"]])), crf.short, "checks receive read results only; reads == closure", "cross-definition checks are computed from the read results only - never from the lookup list", crf.where(), {"raised": raised, "leaks": leaks[:3], "read": got_read}, rule="C19.R1" if raised else "C19.R3")
 
 
-def rule_r4(ctx: Ctx, g: CallGraph) -> None:
-    repo = ctx.repo
-    ctx.rule("C19.R4", "the user's print handler is invoked only by the @print directive handler (hence only inside a read of a referenced definition)", min_instances=2)
-    b = ctx.cls("_data_type_builder.DataTypeBuilder")
-    callers = []
-    for fn in b.methods.values():
-        for c in calls_in(fn.node):
-            if norm(c.func) == "self._print_output_handler":
-                callers.append(fn.name)
-    ctx.check(callers == ["_on_print_directive"], b.short, "callers of _print_output_handler: %s" % callers, "only the print directive may deliver output", b.module.relpath)
-    rdn = ctx.func("_namespace_reader._read_definitions")
-    inv = []
-    for fn in [rdn] + list(rdn.nested.values()):
-        for c in calls_in(fn.node):
-            if norm(c.func) == "print_output_handler":
-                inv.append(fn.name)
-    ctx.check(inv == ["print_handler"], rdn.short, "invocations of the user handler: %s" % inv, "the user's handler is wrapped once and only forwarded into reads", rdn.where())
-    # the wrapper is only ever passed to `.read`
-    uses = []
-    for x in ast.walk(rdn.node):
-        if isinstance(x, ast.Name) and x.id == "print_handler" and isinstance(x.ctx, ast.Load):
-            uses.append(x)
-    parents = {}
-    for p in ast.walk(rdn.node):
-        for ch in ast.iter_child_nodes(p):
-            parents[ch] = p
-    good = True
-    for u in uses:
-        p = parents.get(u)
-        if not (isinstance(p, ast.Call) and dotted(p.func) == "functools.partial"):
-            good = False
-            continue
-        pp = parents.get(p)
-        if not (isinstance(pp, ast.Call) and isinstance(pp.func, ast.Attribute) and pp.func.attr == "read"):
-            good = False
-    ctx.check(good and bool(uses), rdn.short, "print_handler only flows into read(...)", "the handler wrapper must not be invoked or stored elsewhere", rdn.where(), nontrivial=False)
+def rule_r2(ctx: Ctx) -> None:
+    ctx.rule("C19.R2", "constructing a definition object reads no content; listing a namespace builds definition objects from paths without reading them; the lookup list handed to a builder is only filtered by identity", min_instances=3)
+    del R.CONTENT_ACCESS[:]
+    own = R.own_definition(ctx, "ns.sub.T", 1, 2)
+    init = ctx.func("_dsdl_definition.DSDLDefinition.__init__")
+    ctx.count()
+    ctx.check(not R.CONTENT_ACCESS, init.short, "no content access in the constructor", "constructing a definition object from a path must not open or parse the file", init.where(), list(R.CONTENT_ACCESS))
+    # listing a namespace
+    cons = ctx.func("_namespace._construct_dsdl_definitions_from_namespaces")
+    saved = list(APath.FS)
+    APath.FS = ["/w/ns/A.1.0.dsdl", "/w/ns/sub/B.1.0.dsdl"]
+    del R.CONTENT_ACCESS[:]
+    try:
+        base = R._hook(ctx, cons.module, [], results={"dsdl_file_sort": lambda xs: list(xs), "file_sort": lambda xs: list(xs)})
+
+        def hook(e: ast.expr, f: Any) -> Any:
+            if isinstance(e, ast.Call):
+                from ..core import dotted
+
+                name = dotted(e.func) or ""
+                if name == "open" or name.split(".")[-1] in ("read_text", "read_bytes"):
+                    R.CONTENT_ACCESS.append("%s while listing" % name)
+                    return Sym(read=lambda: "TEXT")
+            return base(e, f)
+
+        try:
+            got = call_fn(ctx, cons, [[APath("/w/ns")]], hook=hook, keep=tuple(cons.module.functions))
+        except (Raised, Unfoldable) as ex:
+            raise AnalysisError("%s: cannot evaluate over the abstract file system: %s" % (cons.short, ex))
+    finally:
+        APath.FS = saved
+    ctx.count()
+    built = [x for x in got if getattr(x, "__dict__", {}).get("_cached_type", "?") is None or True]
+    ctx.check(not R.CONTENT_ACCESS and len(built) == 2, cons.short, "paths only (%d definition objects)" % len(built), "listing a namespace constructs definition objects from paths without reading them", cons.where(), list(R.CONTENT_ACCESS))
+    # a definition being read touches the lookup definitions through equality / metadata only (no text, no read): observed
+    w, d = _world()
+    o = R.read_own(ctx, own, list(d.values()))
+    ctx.count()
+    nonmeta = sorted({(e[1].label, e[0] if e[0] != "other" else e[2]) for e in w.log})
+    rd = ctx.func("_dsdl_definition.DSDLDefinition.read")
+    ctx.check(not nonmeta, rd.short, "lookup definitions are compared / filtered, never evaluated", "a lookup definition may only be inspected through its path-derived metadata", rd.where(), nonmeta)
 
 
 def run(ctx: Ctx) -> None:
-    g = CallGraph(ctx.repo)
-    ctx.analysed["callgraph"] = g.stats()
-    ctx.attempt(rule_r1, ctx, g)
-    ctx.attempt(rule_r2, ctx, g)
-    ctx.attempt(rule_r3, ctx)
-    ctx.attempt(rule_r4, ctx, g)
+    ctx.attempt(rule_r1_r3_r4, ctx)
+    ctx.attempt(rule_r2, ctx)
     ctx.assume("file names in lookup directories are inspected when the directory is listed (allowed by the property)")
+    ctx.assume("the model of ReadableDSDLFile.read used for the namespace reader plays the documented protocol: dependencies are read with the same arguments and reported to the visitors; a build prints through the handler it was given")
